@@ -200,13 +200,25 @@ impl Spec {
         NodeW { spec: self, idx: 0 }
     }
 
-    // ---- structural predicates used for evidence and for the known-defect class
+    // ---- structural predicates used for evidence and for the known-defect classes
+    //
+    // Objects with identical content are one object for the compiler. Payloads
+    // embed the node id, so only zero-size nodes (which cannot have links) can
+    // coincide: they are merged into one representative here.
+
+    fn rep(&self) -> Vec<usize> {
+        let z = self.nodes.iter().position(|n| n.size == 0);
+        (0..self.nodes.len())
+            .map(|i| if self.nodes[i].size == 0 { z.unwrap_or(i) } else { i })
+            .collect()
+    }
 
     fn parents(&self) -> Vec<Vec<(usize, u8)>> {
+        let rep = self.rep();
         let mut p = vec![vec![]; self.nodes.len()];
         for (i, n) in self.nodes.iter().enumerate() {
             for l in &n.links {
-                p[l.to].push((i, l.width));
+                p[rep[l.to]].push((i, l.width));
             }
         }
         p
@@ -214,47 +226,66 @@ impl Spec {
 
     /// descendants-or-self of `r`
     fn subgraph(&self, r: usize) -> Vec<bool> {
+        let rep = self.rep();
         let mut seen = vec![false; self.nodes.len()];
-        let mut st = vec![r];
+        let mut st = vec![rep[r]];
         while let Some(x) = st.pop() {
             if std::mem::replace(&mut seen[x], true) {
                 continue;
             }
             for l in &self.nodes[x].links {
-                st.push(l.to);
+                st.push(rep[l.to]);
             }
         }
         seen
     }
 
-    /// The minimal structural condition of the known "orphaned duplicate of a
-    /// space root" defect (see the crate docs):
+    /// does `r` have a proper descendant with a parent outside `r`'s subgraph?
+    fn has_descendant_shared_with_outside(&self, r: usize, parents: &[Vec<(usize, u8)>]) -> bool {
+        let sub = self.subgraph(r);
+        (0..self.nodes.len()).any(|d| d != r && sub[d] && parents[d].iter().any(|(p, _)| !sub[*p]))
+    }
+
+    /// Structural class of known defect 1 ("orphaned duplicate of a space root",
+    /// graph.rs isolate_subgraph_hb re-links the wide parents of a duplicated
+    /// root through the duplicate's empty parent list):
     ///
-    /// there is a node R that is the target of at least one 32-bit link AND of
-    /// at least one 16-bit link ("mixed-width parents": when R becomes the root
-    /// of a 32-bit space it is duplicated so that the 16-bit parent keeps the
-    /// original), and a proper descendant D of R that has a parent outside
-    /// R's subgraph (so D's duplicate keeps one live parent while its other
-    /// parent, the duplicate of R, is never linked in).
+    /// there is an object R that is the target of at least one 32-bit link AND
+    /// of at least one 16-bit link (when R becomes the root of a 32-bit space it
+    /// is duplicated so that the 16-bit parent keeps the original), and a proper
+    /// descendant D of R that has a parent outside R's subgraph (D's duplicate
+    /// keeps one live parent while its other parent, the duplicate of R, is
+    /// never linked in, so the sort never sees all of D's incoming edges).
     pub fn has_mixed_root_with_shared_descendant(&self) -> bool {
         let parents = self.parents();
-        for r in 1..self.nodes.len() {
-            let wide = parents[r].iter().any(|(_, w)| *w == 4);
-            let narrow = parents[r].iter().any(|(_, w)| *w == 2);
-            if !(wide && narrow) {
-                continue;
-            }
-            let sub = self.subgraph(r);
-            for d in 0..self.nodes.len() {
-                if d == r || !sub[d] {
-                    continue;
-                }
-                if parents[d].iter().any(|(p, _)| !sub[*p]) {
-                    return true;
-                }
-            }
-        }
-        false
+        let rep = self.rep();
+        (1..self.nodes.len()).any(|r| {
+            rep[r] == r
+                && parents[r].iter().any(|(_, w)| *w == 4)
+                && parents[r].iter().any(|(_, w)| *w == 2)
+                && self.has_descendant_shared_with_outside(r, &parents)
+        })
+    }
+
+    /// Structural class of known defect 2 ("nested space roots are counted
+    /// twice", graph.rs isolate_subgraph_hb / find_subgraph_map_hb):
+    ///
+    /// there are two objects R1 != R2 that are both targets of 32-bit links, R2
+    /// is a proper descendant of R1, and R2 has a proper descendant D with a
+    /// parent outside R2's subgraph. When R1 and R2 are isolated together the
+    /// links leaving R2 are counted twice, D's outside parent goes unnoticed, D
+    /// is moved without being duplicated and the space invariant asserted in
+    /// try_isolating_subgraphs breaks.
+    pub fn has_nested_wide_targets_with_shared_descendant(&self) -> bool {
+        let parents = self.parents();
+        let rep = self.rep();
+        let wide: Vec<usize> = (1..self.nodes.len())
+            .filter(|r| rep[*r] == *r && parents[*r].iter().any(|(_, w)| *w == 4))
+            .collect();
+        wide.iter().any(|r2| {
+            self.has_descendant_shared_with_outside(*r2, &parents)
+                && wide.iter().any(|r1| r1 != r2 && self.subgraph(*r1)[*r2])
+        })
     }
 
     pub fn has_sharing(&self) -> bool {
